@@ -12,7 +12,7 @@
    and returns exactly the bytes behind the head -- the statements C01/C02 prove for Model/Head.v. *)
 From SV Require Import Base.Bytes Base.BytesP Model.Headers Proofs.HeadersP Model.RustStr
      Proofs.RustStrP Model.Request Spec.Framing Proofs.RequestP Proofs.StreamP Proofs.FramingP.
-From SV Require Import Generated.SourceParams Tie.ContentTypeTie.
+From SV Require Import Base.SrcAst Generated.SourceParams Tie.ContentTypeTie Tie.RequestTie.
 From SV Require Model.Head Spec.Rfc7230.
 From SV Require Import Base.IO Model.PipelineInst Proofs.PipelineInstP.
 
@@ -391,6 +391,27 @@ Proof. exact body_to_file_known_exact. Qed.
 Theorem c03_translation_complete : src_problems_content_type = 0%nat.
 Proof. exact content_type_translated. Qed.
 
+(* C03.src2  The field names, the literals and the two decision tables of read_http_request as TRANSLATED from
+   src/request.rs ON THIS RUN (match arms in source order; first matching arm wins): the coding-list table is the
+   model's te_flags, the (chunked, content_length, method) table is the model's body_table for every input, and
+   the consumed / looked-up names are the model's.  framing_agrees above is therefore a theorem about the tables
+   the code has now. *)
+Theorem c03_source_names :
+  src_req_content_type = n_content_type /\ src_req_expect = n_expect /\ src_req_expect_value = s_100_continue /\
+  src_req_transfer_encoding = n_transfer_encoding /\ src_req_cookie = n_cookie /\
+  src_req_content_length = n_content_length.
+Proof. exact request_names_tie. Qed.
+Theorem c03_source_coding_table :
+  forall value, te_flags value =
+    let items := split_trim_nonempty 44 (match value with Some s => s | None => [] end) in
+    te_eval src_te_arms (nth_error items 0) (nth_error items 1) (nth_error items 2).
+Proof. exact te_table_tie. Qed.
+Theorem c03_source_body_table :
+  forall ch cl m ex gz, body_eval src_body_arms ch cl m ex gz = Some (body_table ch cl m ex gz).
+Proof. exact body_table_tie. Qed.
+Theorem c03_request_translation_complete : src_problems_request = 0%nat.
+Proof. exact request_translated. Qed.
+
 Print Assumptions c03_framing_agrees.
 Print Assumptions c03_request_is_function_of_head.
 Print Assumptions c03_framing_never_ignored.
@@ -425,3 +446,7 @@ Print Assumptions c03_pipeline_roundtrip_concrete.
 Print Assumptions c03_source_content_type_parse_table.
 Print Assumptions c03_file_body_exact.
 Print Assumptions c03_translation_complete.
+Print Assumptions c03_source_names.
+Print Assumptions c03_source_coding_table.
+Print Assumptions c03_source_body_table.
+Print Assumptions c03_request_translation_complete.
